@@ -370,51 +370,7 @@ c_gi.sampler = _gi_sampler
 import pandas as _pd      # noqa: E402
 
 
-class NsTime:
-    """an instant as a symbolic integer count of nanoseconds (what pandas.Timestamp / numpy.datetime64[ns] hold).
-    Ordered by the count; a (symbolic or real) timedelta -- microsecond resolution -- is added exactly."""
-    __pyvc_symbolic__ = True
-    __pyvc_native__ = True
-
-    def __init__(self, ns):
-        self.ns = ns
-
-    def _o(self, o):
-        if isinstance(o, NsTime):
-            return o.ns
-        raise _sym.OutsideSubset("NsTime compared with %r" % (type(o).__name__,))
-
-    def __lt__(self, o): return self.ns < self._o(o)
-    def __le__(self, o): return self.ns <= self._o(o)
-    def __gt__(self, o): return self.ns > self._o(o)
-    def __ge__(self, o): return self.ns >= self._o(o)
-    def __add__(self, td): return NsTime(self.ns + td_us(td) * 1000)
-    def __sub__(self, td): return NsTime(self.ns - td_us(td) * 1000)
-    def tz_localize(self, tz): return self
-
-
-@_model(_pd.Timestamp)
-def _pd_timestamp(interp, v=None, *a, **k):
-    """pandas.Timestamp(<integer>) is the instant that many nanoseconds after the epoch"""
-    if isinstance(v, NsTime):
-        return v
-    if isinstance(v, _Sym):
-        return NsTime(v)
-    return _pd.Timestamp(v, *a, **k)
-
-
-@_model(_pd.Timedelta)
-def _pd_timedelta(interp, v=None, *a, **k):
-    if isinstance(v, _ts.STimedelta):
-        return v
-    return _pd.Timedelta(v, *a, **k)
-
-
-@_model(_np.datetime64)
-def _np_datetime64(interp, v=None, *a):
-    if isinstance(v, NsTime):
-        return v.ns           # compared with the integer nanosecond counts of a datetime64[ns] array
-    return _np.datetime64(v, *a) if v is not None else _np.datetime64()
+from contracts.pdghost import NsTime      # noqa: E402  (pandas.Timestamp / Timedelta, numpy.datetime64 on symbolic instants)
 
 
 class GhostTimeVar:
